@@ -46,6 +46,22 @@ CHECKS = {
         technique="contract-based deductive verification: AST->z3 verification conditions (bit-vector value clauses, ground "
                   "type/WF clauses) on the real emission functions and transformer callbacks, modular operand contracts, "
                   "native replay of counter-models"),
+    "C13": dict(
+        category="proof",
+        text="The attribute state machine of the real HexagonTransformerExtension is verified for every prior history: "
+             "flags are symbolic Booleans and the written-predicate list ranges over all 65 duplicate-free lists over {0..3}. "
+             "set_token_meta_data adds exactly the token's attribute (and nothing for any neutral/other token), reset_flags "
+             "restores the initial state of every inventoried attribute, get_meta renders exactly the set (NONE iff empty), "
+             "the attribute-bearing callbacks (mem_store, mem_load, new_reg, reg, explicit_reg, reg_alias, jump, selection_stmt, "
+             "assignment_expr) set exactly their attribute from any prior state, all other callbacks pass only neutral tokens "
+             "(mechanical scan), and transform_insn renders each part's meta from a reset state (no-op list -> NONE, "
+             "unimplemented -> INVALID).",
+        design_ref="DESIGN.md section 3, C13",
+        note=TRUST + "Assumed contract for lark Transformer.transform (T-LARK): invokes only the callbacks of the given part; "
+             "its precondition (state is reset) is a checked obligation. Attribute table transcribed from the property (T-HEX).",
+        technique="contract-based deductive verification: AST->z3 verification conditions over a symbolic flag state, "
+                  "path-complete symbolic execution of the real extension/callback/entry-point code, modular stubs for "
+                  "transform/get_meta, native replay"),
 }
 
 NOT_APPLICABLE = {
